@@ -91,6 +91,7 @@ def parseAx : Sexp → Option Ax
   | .atom "max" => some .max
   | .atom "not" => some .not
   | .atom "argmin" => some .argmin
+  | .atom "minmax" => some .minmax
   | _ => none
 
 def parseItem : Sexp → Option SItem
